@@ -8,10 +8,13 @@ Core Lean only.
 for changed { changed = false
   res.Iterate(func(t *Triangle) { for _, seg := range t.Segments() {
       tris := res.Find(seg[0], seg[1]);  if len(tris) != 2 { return }
-      sum := acos(angle at o1) + acos(angle at o2)          // the two corners opposite seg
+      sum := angle at o1 + angle at o2                      // the two corners opposite seg; since /repo 9d5c866
+                                                            // atan2(|v1×v2|, v1·v2) (was acos(v1/|v1| · v2/|v2|))
       if sum < math.Pi+1e-8 { continue }                    // already locally Delaunay
       if len(res.Find(o1, o2)) > 0 { continue }             // flipped edge exists already
       res.Remove(tris[0]); res.Remove(tris[1])
+      // p1, p2 ordered so that tris[0] is (o1, p1, p2) up to rotation (since /repo 48d8902 by the
+      // winding of tris[0] — what `flipEdge` below always modelled —, before by comparing normals)
       res.Add(&Triangle{o1, o2, p2}); res.Add(&Triangle{p1, o2, o1}); changed = true; break }})}
 ```
 
